@@ -319,7 +319,7 @@ def rule_wire(ctx):
                         if ends and not uses:
                             if _re.search(rf'\b{var} < 0\b', src):
                                 neg = True
-                            if any(_re.search(rf'\b{v}\b', src) for v in tainted) and 'len(' in src and ('>' in src):
+                            if any(_re.search(rf'\b{v}\b', src) for v in tainted) and 'len(' in src and ('>' in src or '<' in src.replace(f'{var} < 0', '')):
                                 upper = True
                         continue
                     if isinstance(t, ast.Assign) and any(v in U.names_in(t.value) for v in tainted) and isinstance(t.targets[0], ast.Name) \
